@@ -268,9 +268,12 @@ def cases(draw, max_components=5, loops=True):
 
     # -- components: variable uses, own variables, overrides, direct references ------------------------------
     files = {}
-    for c in comps:
+    rep = wf.replication(W)
+    for ci, c in enumerate(comps):
         if "$import" in c:
             continue
+        if ci < len(rep) and rep[ci] and not W["components"][ci]["aggregate"] and draw(st.booleans()):
+            _append_args(c, ["r-%(replica)s"])
         own = None
         if draw(st.integers(0, 2)) == 0:
             own = draw(_scope(p_define=3, with_num=False))
